@@ -112,12 +112,22 @@ def op? (s : String) : Option Op :=
 def answer (toks : List String) : String :=
   match toks with
   | ["net", n, adj, res] => netAnswer n.toNat! (adjOf adj) (matOf res)
+  | ["netd", n, res] =>      -- `ResNetwork(res)`: links derived from the resistances
+      let r := matOf res
+      netAnswer n.toNat! (defaultAdj r) r
   | ["cnet", n, adj, re, im] => cnetAnswer n.toNat! (adjOf adj) (cmatOf re im)
   | "hist" :: n :: adj :: res :: ops =>
       match ops.mapM op? with
       | none => "bad-request"
       | some ops =>
         let s0 := State.init pinvList n.toNat! (adjOf adj) (matOf res)
+        join ((run pinvList s0 ops).2.map showOpt)
+  | "histd" :: n :: res :: ops =>
+      match ops.mapM op? with
+      | none => "bad-request"
+      | some ops =>
+        let r := matOf res
+        let s0 := State.initDefault pinvList n.toNat! r
         join ((run pinvList s0 ops).2.map showOpt)
   | ["vcfb", n, is_, it, adm, r] =>
       let n := n.toNat!
